@@ -25,8 +25,8 @@ type CapLogger struct {
 	mu      sync.Mutex
 	recs    []LogRecord
 	Clock   *Log
-	Sites   bool                // capture calling functions
-	OnRec   func(r *LogRecord)  // called synchronously on the library's goroutine, outside the logger's lock
+	Sites   bool                    // capture calling functions
+	OnRec   func(r *LogRecord)      // called synchronously on the library's goroutine, outside the logger's lock
 	Discard func(r *LogRecord) bool // if set and returns true, the record is not kept (still passed to OnRec)
 	changed chan struct{}
 }
